@@ -111,6 +111,8 @@ func main() {
 			"relation membership is acyclic in the menu (cycles belong to C15); points at E7 precision; polygon loops up to rotation",
 		},
 		QuickDeadline: 200e9, ThoroughDeadline: 25 * 60e9, Chunk: 32,
+		// many worker processes on a shared machine: fewer GC cycles and GC threads per worker
+		WorkerEnv: []string{"GOGC=800", "GOMAXPROCS=2"},
 		Build: func(tier string) (kit.Space, string) {
 			blocks := ok.Blocks(slots, tier)
 			return kit.FuncSpace{N: ok.Total(blocks), F: func(i int64) kit.Result {
@@ -151,8 +153,9 @@ func main() {
 				if len(diffs) > 0 {
 					byClass := map[string][]string{}
 					for _, d := range diffs {
-						c := classify(d, db, dc, basic)
-						byClass[c] = append(byClass[c], d)
+						for _, c := range classify(d, db, dc, basic) {
+							byClass[c] = append(byClass[c], d)
+						}
 					}
 					var names []string
 					for c := range byClass {
@@ -185,16 +188,25 @@ func fields(s string) map[string]bool {
 	return m
 }
 
-// classify names the query kind, the type of the feature asked about and how
-// the compact answer differs from the in-memory one. For reference-like
-// queries it says which feature types the compact world lacks or adds and
-// whether a lacking referrer refers directly or through a chain.
-func classify(d string, db, dc wk.Dump, basic b6.World) string {
+// classify names the query, the type of the feature asked about (marked
+// "(absent)" when neither world has it) and how the compact answer differs
+// from the in-memory one. For reference-like queries it says which feature
+// types the compact world lacks or adds and whether a lacking referrer refers
+// directly or through a chain; one class per kind of lacking/added element.
+func classify(d string, db, dc wk.Dump, basic b6.World) []string {
 	key := strings.SplitN(d, ":\n", 2)[0]
 	sec := wk.SectionClass(d)
 	a, b := db[key], dc[key]
 	subject := strings.TrimPrefix(key, sec+":")
 	typ := typeOf(subject)
+	if sec != "find" && db["has:"+subject] == "false" && dc["has:"+subject] == "false" {
+		typ += "(absent)"
+	}
+	query := map[string]string{"has": "HasFeatureWithID", "feat": "FindFeatureByID", "loc": "FindLocationByID", "find": "FindFeatures",
+		"refs": "FindReferences", "rels": "FindRelationsByFeature", "areas": "FindAreasByPoint", "trav": "Traverse"}[sec]
+	if strings.HasPrefix(sec, "refs-") {
+		query = "FindReferences(" + strings.TrimPrefix(sec, "refs-") + ")"
+	}
 	if strings.Contains(b, "PANIC(") || strings.Contains(a, "PANIC(") {
 		side, v := "compact", b
 		if strings.Contains(a, "PANIC(") {
@@ -202,21 +214,21 @@ func classify(d string, db, dc wk.Dump, basic b6.World) string {
 		}
 		i := strings.Index(v, "PANIC(")
 		j := strings.IndexByte(v[i:], ':')
-		return fmt.Sprintf("%s:%s:%s-%s", sec, typ, side, v[i+6:i+j])
+		return []string{fmt.Sprintf("%s:%s:%s-%s", query, typ, side, v[i+6:i+j])}
 	}
 	switch {
 	case sec == "has" || sec == "loc":
-		return fmt.Sprintf("%s:%s:basic=%s,compact=%s", sec, typ, short(a), short(b))
+		return []string{fmt.Sprintf("%s:%s:basic=%s,compact=%s", query, typ, short(a), short(b))}
 	case sec == "feat":
 		switch {
 		case a == "nil":
-			return "feat:" + typ + ":only-in-compact"
+			return []string{query + ":" + typ + ":only-in-compact"}
 		case b == "nil":
-			return "feat:" + typ + ":only-in-basic"
+			return []string{query + ":" + typ + ":only-in-basic"}
 		case tagsOf(a) != tagsOf(b):
-			return "feat:" + typ + ":tags-differ"
+			return []string{query + ":" + typ + ":tags-differ"}
 		}
-		return "feat:" + typ + ":geometry-or-members-differ"
+		return []string{query + ":" + typ + ":geometry-or-members-differ"}
 	case sec == "find":
 		fa, fb := strings.Fields(a), strings.Fields(b)
 		sa, sb := fields(a), fields(b)
@@ -232,15 +244,35 @@ func classify(d string, db, dc wk.Dump, basic b6.World) string {
 				}
 			}
 			if same {
-				return "find:" + kind + ":order-differs"
+				return []string{query + ":" + kind + ":order-differs"}
 			}
 		}
-		return "find:" + kind + ":" + setDelta(sa, sb, "", nil)
+		var out []string
+		for _, x := range setDelta(sa, sb, "", nil) {
+			out = append(out, query+":"+kind+":"+x)
+		}
+		return out
 	case sec == "trav":
-		return "trav:" + travDelta(a, b)
+		var out []string
+		for _, x := range strings.Split(travDelta(a, b), ",") {
+			out = append(out, query+":"+x)
+		}
+		return out
 	default: // refs, refs-<type>, rels, areas
-		sa, sb := fields(a), fields(b)
-		return sec + ":" + typ + ":" + setDelta(sa, sb, subject, basic)
+		if strings.HasSuffix(typ, "(absent)") {
+			// one phenomenon whatever the query and the length of the chain:
+			// referrers of a feature that neither world has
+			var out []string
+			for _, x := range setDelta(fields(a), fields(b), "", nil) {
+				out = append(out, "referrers-of-absent-"+strings.TrimSuffix(typ, "(absent)")+":"+x)
+			}
+			return out
+		}
+		var out []string
+		for _, x := range setDelta(fields(a), fields(b), subject, basic) {
+			out = append(out, query+":"+typ+":"+x)
+		}
+		return out
 	}
 }
 
@@ -260,31 +292,24 @@ func tagsOf(s string) string {
 	return s[i : i+j]
 }
 
-// setDelta: "compact-lacks-<types>[(direct|indirect)]" and/or "compact-adds-<types>".
-func setDelta(sa, sb map[string]bool, subject string, basic b6.World) string {
-	lacks, adds := map[string]bool{}, map[string]bool{}
+// setDelta: "compact-lacks-<type>(direct|indirect)" / "compact-adds-<type>", one per kind.
+func setDelta(sa, sb map[string]bool, subject string, basic b6.World) []string {
+	out := map[string]bool{}
 	for x := range sa {
 		if !sb[x] {
 			t := typeOf(x)
 			if basic != nil {
 				t += "(" + directness(basic, x, subject) + ")"
 			}
-			lacks[t] = true
+			out["compact-lacks-"+t] = true
 		}
 	}
 	for x := range sb {
 		if !sa[x] {
-			adds[typeOf(x)] = true
+			out["compact-adds-"+typeOf(x)] = true
 		}
 	}
-	var parts []string
-	if len(lacks) > 0 {
-		parts = append(parts, "compact-lacks-"+strings.Join(keys(lacks), "+"))
-	}
-	if len(adds) > 0 {
-		parts = append(parts, "compact-adds-"+strings.Join(keys(adds), "+"))
-	}
-	return strings.Join(parts, ",")
+	return keys(out)
 }
 
 func keys(m map[string]bool) []string {
@@ -311,30 +336,88 @@ func directness(basic b6.World, referrer, subject string) string {
 	return "indirect"
 }
 
-// travDelta compares segment sets "path[first-last]".
+// travDelta compares segment sets "path[first-last]". Segments are matched by
+// (path, first index, direction); a matched pair with different ends says which
+// world stops earlier; unmatched segments are reported as lacking/added, with
+// the special case of a closed path traversed from its closing point, where
+// the origin may be reported as index 0 or as the last index.
 func travDelta(a, b string) string {
-	sa, sb := fields(a), fields(b)
-	var parts []string
-	na, nb := 0, 0
-	for x := range sa {
-		if !sb[x] {
-			na++
+	type seg struct {
+		path         string
+		first, last  int
+	}
+	parse := func(s string) []seg {
+		var out []seg
+		for _, f := range strings.Fields(s) {
+			i := strings.LastIndexByte(f, '[')
+			var x seg
+			x.path = f[:i]
+			fmt.Sscanf(f[i:], "[%d-%d]", &x.first, &x.last)
+			out = append(out, x)
+		}
+		return out
+	}
+	dir := func(x seg) int {
+		if x.last >= x.first {
+			return 1
+		}
+		return -1
+	}
+	key := func(x seg) string { return fmt.Sprintf("%s|%d|%d", x.path, x.first, dir(x)) }
+	abs := func(n int) int {
+		if n < 0 {
+			return -n
+		}
+		return n
+	}
+	ma, mb := map[string]seg{}, map[string]seg{}
+	for _, x := range parse(a) {
+		ma[key(x)] = x
+	}
+	for _, x := range parse(b) {
+		mb[key(x)] = x
+	}
+	out := map[string]bool{}
+	for k, x := range ma {
+		if y, ok := mb[k]; ok {
+			switch {
+			case abs(y.last-y.first) < abs(x.last-x.first):
+				out["compact-stops-earlier"] = true
+			case abs(y.last-y.first) > abs(x.last-x.first):
+				out["compact-stops-later"] = true
+			}
+		} else if x.first != 0 && dir(x) < 0 && hasOrigin(mb, x.path, 0) {
+			out["closed-path-from-closing-point"] = true
+		} else {
+			out["compact-lacks-segment"] = true
 		}
 	}
-	for x := range sb {
-		if !sa[x] {
-			nb++
+	for k, y := range mb {
+		if _, ok := ma[k]; !ok {
+			if y.first == 0 && dir(y) > 0 && hasOriginNot(ma, y.path, 0) {
+				out["closed-path-from-closing-point"] = true
+			} else {
+				out["compact-adds-segment"] = true
+			}
 		}
 	}
-	switch {
-	case na > 0 && nb > 0 && len(sa) == len(sb):
-		parts = append(parts, "segments-end-at-different-points")
-	case len(sa) > len(sb):
-		parts = append(parts, "compact-lacks-segments")
-	case len(sa) < len(sb):
-		parts = append(parts, "compact-adds-segments")
-	default:
-		parts = append(parts, "segments-differ")
+	return strings.Join(keys(out), ",")
+}
+
+func hasOrigin[T any](m map[string]T, path string, first int) bool {
+	for k := range m {
+		if strings.HasPrefix(k, fmt.Sprintf("%s|%d|", path, first)) {
+			return true
+		}
 	}
-	return strings.Join(parts, ",")
+	return false
+}
+
+func hasOriginNot[T any](m map[string]T, path string, first int) bool {
+	for k := range m {
+		if strings.HasPrefix(k, path+"|") && !strings.HasPrefix(k, fmt.Sprintf("%s|%d|", path, first)) {
+			return true
+		}
+	}
+	return false
 }
